@@ -18,3 +18,19 @@ class GoneNA(Persistent):
 
     def __getnewargs__(self):
         return self.__dict__.get('_v_na', ())
+
+
+class PlainGone:
+    """not persistent: pickled by value inside its holder's record, with constructor arguments that
+    only __new__ accepts (loading must not run __init__)"""
+
+    def __new__(cls, *args):
+        self = object.__new__(cls)
+        NEW_ARGS[self] = args
+        return self
+
+    def __init__(self, name):
+        self.name = name
+
+    def __getnewargs__(self):
+        return ('x', 'y')
